@@ -212,3 +212,29 @@ Proof.
     rewrite app_nth2 by lia. rewrite HL, Nat.sub_diag. cbn [nth].
     change (last (p :: R) []) with (last R []). reflexivity.
 Qed.
+
+(* ---- byte view of a line: dropping n BYTES (n on a character boundary) ------------------------------------------ *)
+Fixpoint bskip (n : nat) (l : pyline) : pyline :=
+  match n, l with
+  | 0, _ => l
+  | _, [] => []
+  | _, c :: r => bskip (n - u8w c) r
+  end.
+
+Lemma bskip_app x y k : bskip (blen_nat x + k) (x ++ y) = bskip k y.
+Proof.
+  induction x as [|c x IH]; [reflexivity|].
+  cbn [blen_nat app]. assert (0 < u8w c) by (unfold u8w; repeat destruct (_ <? _)%N; lia).
+  destruct (u8w c + blen_nat x + k) eqn:E; [lia|]. cbn [bskip]. rewrite <- E.
+  replace (u8w c + blen_nat x + k - u8w c) with (blen_nat x + k) by lia. apply IH.
+Qed.
+
+(* Text after the edited region is reachable at the byte column the offset parameters predict:
+   a byte column b >= (old end of region) on the old end line and b + dcol on the new end line see the same text. *)
+Theorem end_line_suffix_bytes L put ln col eln ecol k : ln <= length L -> ecol <= length (lineAt L eln) ->
+  bskip (blen_nat (new_prefix L put ln col) + k) (nth (ln + (length put - 1)) (put_spec L put ln col eln ecol) [])
+  = bskip (c2b (lineAt L eln) ecol + k) (lineAt L eln).
+Proof.
+  intros Hl He. rewrite put_spec_end_line by assumption. rewrite bskip_app.
+  unfold c2b. rewrite <- (firstn_skipn ecol (lineAt L eln)) at 3. now rewrite bskip_app.
+Qed.
